@@ -182,6 +182,37 @@ def main(argv):
                     c.violation("%s/%s %s: value delivered to the caller is wrong: %s" % (sc["version"], sc["mode"], st["op"], bad),
                                 {"scenario": dict(sc, steps=[st]), "observed": o, "intended": [(a, k, str(v)[:60]) for a, k, v in desc]},
                                 key="api-value:" + bad.split(":")[0])
+    # ---- replies that fill the receive buffer to its last octet (and one less): complete datagrams, delivered whole
+    MAXB = vf.constant("BUF_MAX_SIZE", 4080)
+    fsc = []
+    for ver in ("v1", "v2c", "v3"):
+        for mode in ("sync", "async"):
+            sc = {"version": ver, "mode": mode, "timeout": 0.5, "steps": [{"op": op, "args": ["1.3.6.1.4.1.1"] if op == "get" else [["1.3.6.1.4.1.1"]],
+                                                                            "replies": [[{"fill_total": tot}]], "_tot": tot}
+                                                                           for tot in (MAXB - 1, MAXB, MAXB - 2, 1500, MAXB) for op in ("get", "get_many")]}
+            if ver == "v3":
+                sc["v3"] = {"user": "u0", "auth": None, "priv": None, "engine_id": "80001f8880aabbccdd", "agent_engine_id": "80001f8880aabbccdd", "boots": 5, "time": 1000}
+            fsc.append(sc)
+    resf, logf = vf.run_api_worker("C02", {"scenarios": [dict(sc, steps=[{k: v for k, v in st.items() if not k.startswith("_")} for st in sc["steps"]]) for sc in fsc]})
+    if resf is None:
+        c.errors.append("API worker failed: " + logf[-1500:])
+    else:
+        for sc, rec in zip(fsc, resf["records"]):
+            if "driver_error" in rec:
+                c.errors.append("API driver error: " + rec["driver_error"])
+                continue
+            for st, out in zip(sc["steps"], rec["steps"]):
+                xs = out.get("exchanges") or [{}]
+                sent = len(bytes.fromhex((xs[0].get("replies") or [""])[0]))
+                n_api += 1
+                c.count(("api-full-buffer", sc["version"], sc["mode"], st["op"], st["_tot"]), sent == st["_tot"])
+                val = out.get("value") or ""
+                okv = (val.startswith("bytes:46") and set(val[6:]) == {"4", "6"}) if st["op"] == "get" else ("=bytes:46" in val and val.count("=") == 1)
+                if sent == st["_tot"] and not (out["kind"] == "RET" and okv):
+                    c.violation("%s/%s %s: a well-formed reply of exactly %d octets (receive buffer %d) does not reach the caller: %s"
+                                % (sc["version"], sc["mode"], st["op"], sent, MAXB, (out.get("exc") or val)[:60]),
+                                {"version": sc["version"], "mode": sc["mode"], "op": st["op"], "datagram_octets": sent, "buffer": MAXB, "outcome": out.get("exc") or val[:80]},
+                                key="api-full-buffer:%s" % ("exact" if sent == MAXB else "below"))
     c.assumptions += ["REAL: the model decodes to an exact description (sign, mantissa, power of two / decimal text / special value); "
                       "the final IEEE-754 rounding is not modelled, the correctly rounded value is computed by the harness (partial)"]
     return c.finish(
